@@ -113,7 +113,7 @@ func ruleQuantizeExponent(w *World, r *RuleResult) {
 	key := "(*Context).quantize | result exponent is the requested one"
 	var bad []string
 	n := 0
-	for in, vals := range w.lastStoresAt(f, "&d.Exponent", isReturn) {
+	for in, vals := range w.lastStoresAt(f, "&"+w.destName(f)+".Exponent", isReturn) {
 		rt := in.(*ssa.Return)
 		if w.isErrorReturn(rt) {
 			continue
@@ -621,7 +621,7 @@ func ruleIntDivSigns(w *World, r *RuleResult) {
 		var stores []*ssa.Store
 		for _, b := range f.Blocks {
 			for _, in := range b.Instrs {
-				if st, ok := in.(*ssa.Store); ok && w.exprOf(f, st.Addr).String() == "&d.Negative" {
+				if st, ok := in.(*ssa.Store); ok && w.exprOf(f, st.Addr).String() == "&"+w.destName(f)+".Negative" {
 					stores = append(stores, st)
 				}
 			}
@@ -655,7 +655,7 @@ func ruleIntDivSigns(w *World, r *RuleResult) {
 		key := "(*Context).QuoInteger | exponent 0"
 		var bad []string
 		n := 0
-		for in, vals := range w.lastStoresAt(f, "&d.Exponent", isReturn) {
+		for in, vals := range w.lastStoresAt(f, "&"+w.destName(f)+".Exponent", isReturn) {
 			rt := in.(*ssa.Return)
 			if w.isErrorReturn(rt) {
 				continue
